@@ -42,6 +42,10 @@ func strictKind(err error) string {
 	if err == nil {
 		return ""
 	}
+	var pe *panicError
+	if errors.As(err, &pe) {
+		return "panic"
+	}
 	var dm *storage.CurrentDeleteMarkerError
 	if errors.As(err, &dm) {
 		return "DeleteMarker"
@@ -62,6 +66,10 @@ func strictKind(err error) string {
 func errDetail(err error) string {
 	if err == nil {
 		return ""
+	}
+	var pe *panicError
+	if errors.As(err, &pe) {
+		return pe.Error()
 	}
 	var ae smithy.APIError
 	if errors.As(err, &ae) {
